@@ -189,6 +189,8 @@ def _run_case(ctx, case) -> F.Outcome:
     kind = case[0]
     if kind == "nested-edit":
         return _run_nested_edit(ctx, case)
+    if kind == "subdir":
+        return _run_subdir(ctx, case)
     ix = _index().private_copy()
     H.freeze(DAY)
     out = F.Outcome()
@@ -297,6 +299,80 @@ def _run_case(ctx, case) -> F.Outcome:
     return out
 
 
+# saved query pages in sub-directories of zoq/ (`zorg query -s` itself writes zoq/tmp/...): a name is
+# always looked up from zoq/, also when the page that mentions it lives in a sub-directory
+SUBDIR_ENV = {
+    "qa": [[["tag", "#", "t1", False]]],
+    "phone/calls": [[["kind", "o"], ["ref", "qa"]]],
+    "phone/qa": [[["tag", "#", "t2", False]]],                      # same page name as the flat one: a different clause
+    "phone/deep/x": [[["ref", "phone/calls"]], [["ref", "qa"], ["tag", "+", "j1", False]]],
+    "phone/uses_its_neighbour": [[["ref", "phone/qa"], ["kind", "-"]]],
+}
+SUBDIR_QUERIES = [
+    (None, [[["ref", "phone/calls"]]]), (None, [[["ref", "phone/deep/x"]]]), (None, [[["ref", "phone/deep/x"], ["tag", "@", "c1", True]]]),
+    (None, [[["ref", "phone/uses_its_neighbour"]]]), (None, [[["ref", "phone/qa"]], [["ref", "qa"], ["kind", "o"]]]),
+    (["count", ["note"]], [[["ref", "phone/calls"]]]), (None, [[["tag", "+", "j1", False], ["ref", "phone/calls"]]]),
+]
+
+
+def _run_subdir(ctx, case) -> F.Outcome:
+    _, qi, style = case
+    ix = _index().private_copy()
+    H.freeze(DAY)
+    out = F.Outcome()
+    zoq = ix.zdir / "zoq"
+    zoq.mkdir(exist_ok=True)
+    import shutil
+
+    for p in zoq.glob("*.zoq"):
+        p.unlink()
+    shutil.rmtree(zoq / "phone", ignore_errors=True)
+    for name, clause in SUBDIR_ENV.items():
+        f = zoq / f"{name}.zoq"
+        f.parent.mkdir(parents=True, exist_ok=True)
+        f.write_text(wrap(render_with_refs(clause), style) + "\n")
+    select, where = SUBDIR_QUERIES[qi]
+    qtext = ("S " + Q.render_select(select) + " " if select else "") + "W " + render_with_refs(where)
+    U = ix.universe
+    full = substitute(where, SUBDIR_ENV)
+    want = sorted(n["zid"] for n in U.notes if Q.holds_or(full, n, U, DAY))
+    exp = _safe_expand(ix.zdir, qtext)
+    problem, got = None, None
+    if isinstance(exp, tuple):
+        problem = ("expansion-raised", {"error": exp[1]})
+        exp = None
+    elif exp is None:
+        problem = ("expansion-failed", {})
+    elif "{" in exp:
+        problem = ("reference-left-unexpanded", {})
+    else:
+        ok, why = qwf.wellformed(exp)
+        if not ok:
+            problem = ("expansion-not-well-formed", {"why": why})
+        elif select:
+            res, err = ix.execute(exp)
+            got = res
+            if err is not None:
+                problem = ("execute-raised", {"error": err})
+            elif res.strip() != str(len(want)):
+                problem = ("count-differs", {"observed": res, "expected": len(want)})
+        else:
+            got, err = ix.where_zids(exp)
+            if err is not None:
+                problem = ("execute-raised", {"error": err})
+            elif sorted(got) != want:
+                problem = ("selected-notes-differ", {"expected": want, "observed": sorted(got)})
+    out.obs = H.digest([exp, got])
+    if 0 < len(want) < len(U.notes):
+        out.nontrivial = H.digest(case)
+    if problem:
+        out.ok = False
+        out.sig = "saved-pages-in-sub-directories:" + problem[0]
+        out.detail = {"saved": {n: wrap(render_with_refs(c), style) for n, c in SUBDIR_ENV.items()}, "query": qtext,
+                      "expanded": exp, "model_query": "W " + Q.render_or(full), **problem[1]}
+    return out
+
+
 def _run_nested_edit(ctx, case) -> F.Outcome:
     """Same process: expand {outer} (outer -> {inner}), then rewrite or delete ONLY the
     inner page, expand {outer} again.  Every expansion must reflect the pages as they are."""
@@ -381,6 +457,9 @@ def _cases(ctx):
         for i2 in range(len(PLAIN)):
             if i1 != i2:
                 cases.append(["nested-edit", i1, i2, (i1 + i2) % 2 == 0])
+    for qi in range(len(SUBDIR_QUERIES)):
+        for style in ((0, 1, 2, 3) if not ctx.quick else (qi % 4, (qi + 2) % 4)):
+            cases.append(["subdir", qi, style])
     for fi, form in enumerate(("symlink", "dotdot", "double-slash")):
         for qi in range(nq):
             cases.append(["zdirform", form, "ref", (qi + fi) % na, (qi * 3 + fi) % nb, (qi * 5 + fi) % nc, (qi + fi) % 4, qi])
@@ -393,6 +472,9 @@ def _cases(ctx):
 
 
 def _sample(ctx, case):
+    if case[0] == "subdir":
+        return {"saved": {n: wrap(render_with_refs(c), case[2]) for n, c in SUBDIR_ENV.items()},
+                "query": "W " + render_with_refs(SUBDIR_QUERIES[case[1]][1])}
     if case[0] == "zdirform":
         return dict(_sample(ctx, case[2:]), notes_directory_spelled_with=case[1])
     if case[0] == "nested-edit":
